@@ -268,6 +268,25 @@ theorem encode_top (a : Fin n → F) (ha : Function.Injective a) (hk : k ≤ n) 
     rw [← Matrix.submatrix_mul_equiv (e₂ := Equiv.refl (Fin k))]; rfl
   rw [e, gen_top a ha hk, Matrix.one_mul]
 
+/-- **converse (why an error is the only correct answer beyond the parity count)** — from FEWER than `k` shards the
+    data is not determined: for any `j < k` surviving rows there are two different data blocks with identical surviving
+    shards. Hence no decoder can be right for both, and `too_many_erasures_err` (below) is the required behaviour. -/
+theorem fewer_than_k_rows_ambiguous (a : Fin n → F) (hk : k ≤ n) {j : ℕ} (hj : j < k) (rows : Fin j → Fin n) :
+    ∃ D D' : Matrix (Fin k) (Fin 1) F, D ≠ D' ∧
+      (encode a hk D).submatrix rows id = (encode a hk D').submatrix rows id := by
+  obtain ⟨v, hv0, hv⟩ := exists_ker_of_lt ((gen a hk).submatrix rows id) hj
+  refine ⟨Matrix.of fun i _ => v i, 0, ?_, ?_⟩
+  · intro h
+    apply hv0
+    funext i
+    have := congrFun (congrFun h i) 0
+    simpa using this
+  · unfold encode
+    ext i c
+    have := congrFun hv i
+    simp only [Matrix.mulVec, dotProduct, Matrix.submatrix_apply, id_eq, Pi.zero_apply] at this
+    simp [Matrix.mul_apply, this]
+
 end Code
 
 /-- non-vacuity: GF(5)-like instance over ℚ — 4 shards, 2 data, nodes 0,1,2,3; rows 2 and 3 (both data shards lost) -/
